@@ -362,7 +362,14 @@ func (ihgs *indexHashedNodesCoordinator) ComputeConsensusGroup(
 		size += v.Size()
 	}
 
-	ihgs.consensusGroupCacher.Put(key, tempList, size)
+	// the group is cached only if the configuration it was computed from is still the one of the epoch: the same epoch
+	// might have been prepared again in the meantime (the cache is cleared after the configuration is replaced)
+	ihgs.mutNodesConfig.RLock()
+	currentNodesConfig, ok := ihgs.nodesConfig[epoch]
+	if ok && currentNodesConfig.selectors[shardID] == selector {
+		ihgs.consensusGroupCacher.Put(key, tempList, size)
+	}
+	ihgs.mutNodesConfig.RUnlock()
 
 	return tempList, nil
 }
